@@ -186,6 +186,7 @@ class FakeQueue:
 
     def put(self, x: Any) -> None:
         self.world.point("put")
+        self.world.rec("put", type(x).__name__, getattr(x, "is_reload_all", None))
         if self.world.lag and not self.world.in_sleep:
             self.pending.append(x)
         else:
@@ -408,6 +409,22 @@ def oracle_c18(out: Dict[str, Any], workers: int, max_fails: int, history: List[
                     elif ret == None and not any(e[0] <= t + 1 for e in sd_events0):  # noqa: E711
                         v.append(Violation("failure-budget-ignored", f"budget exhausted at tick {t} but start() returned success"))
                 break
+    # the same rule, exact, from the order of the action queue (first in, first out): once the max_fails-th restart
+    # request for an unexpectedly dead worker is queued with no shutdown request ahead of it, handling it ends
+    # start() with the failure status - a shutdown request queued *behind* it cannot turn that into success
+    if max_fails >= 1 and out["returned"] and ret is None:
+        n = 0
+        for e in tr:
+            if e[1] != "put":
+                continue
+            if e[2] == "ShutdownAction":
+                break
+            if e[2] == "ReloadOneAction" and not e[3]:
+                n += 1
+                if n >= max_fails:
+                    v.append(Violation("failure-exit-preempted-by-later-shutdown", f"the restart request that exhausts max_fails={max_fails} was queued at tick {e[0]} ahead of any "
+                                       f"shutdown request, but start() returned the success status at tick {ret_tick}"))
+                    break
     # reload-all: (i) never more than one restart of a slot within one tick; (ii) every reload-all request
     # (SIGHUP / file change at tick t) restarts every slot at least once within ticks t..t+1 (the
     # ReloadOne expansion may become visible one tick later, see World.lag) unless start() returned
